@@ -116,6 +116,14 @@ func c02build() {
 				c02matrix = append(c02matrix, c02case{Name: kind + "/read-after-eof/" + name + "/probed", Subject: "mem", Init: init, Steps: steps})
 			}
 		}
+		// an Open that fails (exclusive create of a name that exists, with and without O_TRUNC; O_TRUNC on a directory) while a
+		// handle on the file is open: the handle goes on reading what it read before
+		for _, fl := range []int{os.O_RDWR | os.O_CREATE | os.O_EXCL | os.O_TRUNC, os.O_WRONLY | os.O_CREATE | os.O_EXCL | os.O_TRUNC | os.O_APPEND, os.O_RDWR | os.O_CREATE | os.O_EXCL} {
+			for _, subj := range []string{"mem", "kvplain"} {
+				steps := []fsx.Step{c02open(0, "rw"), {K: "H.Read", Slot: 0, N: 3}, {K: "Open", P: "f", Flag: fl, Perm: 0o644, Slot: 1}, {K: "H.Stat", Slot: 0}, {K: "H.Read", Slot: 0, N: 20}, {K: "H.ReadAt", Slot: 0, N: 10, Off: 0}}
+				c02matrix = append(c02matrix, c02case{Name: fmt.Sprintf("rw/failing-open-of-the-same-file/%#x", fl), Subject: subj, Init: init, Steps: steps})
+			}
+		}
 		// files and single transfers well beyond any internal chunk size (64 KiB, 128 KiB): one call, one complete transfer
 		big := make([]byte, 200<<10)
 		for i := range big {
